@@ -274,7 +274,9 @@ fn compose(r: &mut Rng, info: &RecvInfo, mistakes: usize) -> (Vec<String>, usize
                         items.retain(|i| !(i == n || i.starts_with(&format!("{} ", n)) || i.starts_with(&format!("{}(", n))));
                     }
                     let pos = r.below(items.len() + 1);
-                    items.insert(pos, format!("{}{}", n, r.pick(f.invalid)));
+                    // the last rejected sample of a nested receiver holds several mistakes at once
+                    let v = if r.chance(1, 3) { f.invalid[f.invalid.len() - 1] } else { *r.pick(f.invalid) };
+                    items.insert(pos, format!("{}{}", n, v));
                     injected += 1;
                 }
             }
